@@ -599,4 +599,30 @@ C11_Safety(s, e) ==
     /\ C01_Step(s, e) /\ C03_Step(s, e) /\ C04_Step(s, e) /\ C05_Step(s, e) /\ C12_Step(s, e) /\ C13_Step(s, e)
     /\ ~e.res.panic
 
+
+-----------------------------------------------------------------------------
+(* C18 - at most one valid ExtendedDaemonsetSetting applies to a node.  Evaluated when every setting has been           *)
+(* reconciled against the same cluster state ("SettingsDone"); that only a valid setting influences pods is C10_Step.   *)
+
+SetMatches(s, x, n) == x.sel # "" /\ x.sel = NodeOf(s, n).slabel
+
+C18_Step(s, e) ==
+    (e.ev = "SettingsDone") =>
+      LET t == e.state  X == SeqToSet(t.settings)
+          Overlap(x, y) == x # y /\ x.ns = y.ns /\ \E n \in NodeNames(t) : SetMatches(t, x, n) /\ SetMatches(t, y, n)
+          Usable(x) == x.sel # ""
+      IN /\ NT(<<"C18", Cardinality(X), Cardinality({ x \in X : x.status = "valid" })>>)
+         \* at most one valid setting per node
+         /\ \A n \in NodeNames(t) : Cardinality({ x \in X : x.status = "valid" /\ SetMatches(t, x, n) }) <= 1
+         \* the overlapping others report a conflict
+         /\ \A x \in X : (\E y \in X : Overlap(x, y) /\ y.status = "valid") => (x.status = "error" /\ (x.err = "conflict" \/ x.ref = ""))
+         \* no reference / unusable selector => error
+         /\ \A x \in X : (x.ref = "" \/ ~Usable(x)) => x.status = "error"
+         \* a well-formed setting overlapping no other is valid
+         /\ \A x \in X : (x.ref # "" /\ Usable(x) /\ ~\E y \in X : Overlap(x, y)) =>
+               \/ x.status = "valid"
+               \/ Masked("F-setting-poison", "C18", \E y \in X : y # x /\ y.ns = x.ns /\ ~Usable(y))
+         \* every setting has a verdict
+         /\ \A x \in X : x.status \in {"valid", "error"}
+
 =============================================================================
